@@ -170,48 +170,10 @@ def check_direction(P, ctx):
             need = 'iter_init' if m == 'iter_init' else 'iter_next' if m == 'iter_next' else 'iter_last' if m == 'iter_last' else 'iter_prev'
             ok = used <= allowed and need in used
             ctx.check(ok, rule, '%s.%s' % (T, m), site(fn), '%s of a %s view uses only %s of the underlying iterable' % (m, T, '/'.join(sorted(allowed))), ['uses: %s' % sorted(used)])
-    # Slice: per sign-of-step branch
-    for m, pos_set, neg_set in (('iter_init', {'iter_init', 'iter_next'}, {'iter_last', 'iter_prev'}), ('iter_next', {'iter_next'}, {'iter_prev'}),
-                                ('iter_last', {'iter_last', 'iter_prev'}, {'iter_init', 'iter_next'}), ('iter_prev', {'iter_prev'}, {'iter_next'})):
-        fn = P.fn(P.slot('Slice', 'Iter', m))
-        g = P.cfg(fn)
-        ctx.fn(fn)
-        N = util.Norm(P, fn, expand_locals=True, inline=False)
-        ok = True
-        detail = []
-        step = None
-        for n in g.live():
-            if n['kind'] == 'cond':
-                c = N.canon(n['expr'])
-                if c[0] == 'bin' and c[1] == '<' and ('int', 0) in (c[2], c[3]):
-                    other = c[3] if c[2] == ('int', 0) else c[2]
-                    if util.field_name(other) == 'step':
-                        step = other
-        for n in g.live():
-            if n['expr'] is None:
-                continue
-            for c in ir.calls(n['expr']):
-                nm = ir.callee_name(c)
-                if nm in ACCESS:
-                    ok = False
-                    detail.append('%s:%s calls %s on the underlying iterable: positions of a slice are defined by iteration order, and get is keyed (not positional) for Table and Tree' % (fn['file'], n['line'], nm))
-                if nm not in CURSOR:
-                    continue
-                # which sign branch dominates this call?
-                sign = None
-                for cn in g.live():
-                    if cn['kind'] != 'cond':
-                        continue
-                    cc = N.canon(cn['expr'])
-                    if step is not None and cc == ('bin', '<', ('int', 0), step) and g.must_pass(n['id'], through_edges=[(cn['id'], True)]):
-                        sign = '+'
-                    if step is not None and cc == ('bin', '<', step, ('int', 0)) and g.must_pass(n['id'], through_edges=[(cn['id'], True)]):
-                        sign = '-'
-                if sign is None or nm not in (pos_set if sign == '+' else neg_set):
-                    ok = False
-                    detail.append('%s:%s %s under step sign %s' % (fn['file'], n['line'], nm, sign))
-        ctx.check(ok, rule, 'Slice.%s' % m, site(fn), 'a Slice walks the underlying iterable only with its cursor functions: %s for a positive step, %s for a negative one' % (sorted(pos_set), sorted(neg_set)), detail[:3])
-    ctx.floor(rule, 16)
+    # Slice: the walk over the underlying iterable is decided by evaluation (C11.slice-ends: every position the cursor functions reach,
+    # for every start/stop/step over underlying lengths 0..5; keyed access to the underlying iterable is not in that evaluation's
+    # vocabulary and leaves it undecided)
+    ctx.floor(rule, 12)
 
 
 def check_slice_bound(P, ctx):
@@ -659,7 +621,7 @@ def check_range_arithmetic(P, ctx):
     for m in ('len', 'iter_init', 'iter_last', 'iter_next', 'iter_prev', 'get'):
         C = 'Len' if m == 'len' else ('Get' if m == 'get' else 'Iter')
         fn = P.fn(P.slot('Range', C, m))
-        g = P.cfg(fn)
+        g = P.cfg(fn, lower_ternary=True)          # `return c ? Terminal : i` is two returns
         ctx.fn(fn)
         N = util.Norm(P, fn, expand_locals=True)
         bad = None
